@@ -12,6 +12,34 @@ from ._chan import GB, MESSAGE_TABLE, RECVLOCK, message_registry, send_sites
 from .C09 import check_lock_order
 
 
+def check_handover_lock(ctx: Ctx, locks: LockSets, oid: str) -> None:
+    repo = ctx.repo
+    with ctx.obligation(oid, "handover-lock") as ob:
+        n = 0
+        for fi in repo.funcs.values():
+            if fi.name == "__init__":
+                continue
+            for x in repo.own_nodes(fi):
+                tgt = None
+                if isinstance(x, ast.Assign):
+                    for t in x.targets:
+                        if isinstance(t, ast.Attribute) and t.attr == "_items":
+                            tgt = "Channel._items store"
+                        if isinstance(t, ast.Subscript) and unparse(t.value).endswith("_callbacks"):
+                            tgt = "_callbacks[id] store"
+                if isinstance(x, ast.Call) and callee_attr(x) == "received" and fi.short == "BaseGateway._thread_receiver":
+                    tgt = "msg.received(self) dispatch"
+                if tgt is None:
+                    continue
+                n += 1
+                held = locks.held(fi, x)
+                ob.site(fi, x, tgt, held=sorted(held))
+                if RECVLOCK not in held:
+                    ob.violation(fi, x, f"{tgt} without holding the gateway's _receivelock: the queue->callback hand-over can interleave with message dispatch (items lost or reordered)")
+        ob.require(n >= 3, f"{n} hand-over/dispatch sites (floor 3)")
+
+
+
 def check(ctx: Ctx) -> None:
     repo = ctx.repo
     ctx.decides = ("single reader of the gateway stream; complete message-code registry whose handlers route by the unmodified "
@@ -257,28 +285,5 @@ def check(ctx: Ctx) -> None:
                     if f.get("queue is None") is not True:
                         ob.violation(flr, n, "data is dropped although the channel has a queue")
 
-    with ctx.obligation("C02.g", "handover-lock") as ob:
-        n = 0
-        for fi in repo.funcs.values():
-            if fi.name == "__init__":
-                continue
-            for x in repo.own_nodes(fi):
-                tgt = None
-                if isinstance(x, ast.Assign):
-                    for t in x.targets:
-                        if isinstance(t, ast.Attribute) and t.attr == "_items":
-                            tgt = "Channel._items store"
-                        if isinstance(t, ast.Subscript) and unparse(t.value).endswith("_callbacks"):
-                            tgt = "_callbacks[id] store"
-                if isinstance(x, ast.Call) and callee_attr(x) == "received" and fi.short == "BaseGateway._thread_receiver":
-                    tgt = "msg.received(self) dispatch"
-                if tgt is None:
-                    continue
-                n += 1
-                held = locks.held(fi, x)
-                ob.site(fi, x, tgt, held=sorted(held))
-                if RECVLOCK not in held:
-                    ob.violation(fi, x, f"{tgt} without holding the gateway's _receivelock: the queue->callback hand-over can interleave with message dispatch (items lost or reordered)")
-        ob.require(n >= 3, f"{n} hand-over/dispatch sites (floor 3)")
-
+    check_handover_lock(ctx, locks, "C02.g")
     check_lock_order(ctx, locks, "C02.h")
